@@ -14,6 +14,8 @@ open Genshi Genshi.Incl Genshi.Sexp
                                              cls = markup|text    fb = N | ( node … )
         data  = ( ( name value ) … )   value = ( v str ) | ( l value … )
       → ( ok ( S tag ) | ( E tag ) | ( T s ) … ) | ( err NotFound|Syntax|Undefined ) | fuel | unmodelled
+    chain <inline|inline-marked|runtime> <fuel> <files> ( ( entry kind data ) … )
+        → ( outcome … ) : the requests answered one after the other through one loader
     kept <files> <entry> <kind>   → ( ok target … ) | err : resolved targets of the statically named includes
                                     still present in the prepared entry, in document order
     inh <files>            → T | F     (the theorem's hypothesis, with T = all match tags of the file set)
@@ -122,6 +124,22 @@ def handle : List Sexp → Option Sexp
       | "inline-marked" => pure (resOut (renderInline files entry kind data fuel))
       | "runtime" => pure (resOut (renderRuntime files entry kind data fuel))
       | _ => none
+  | [.atom "chain", .atom mode, fuel, files, .list reqs] => do
+      let fuel ← fuel.toNat?
+      let files ← files? files
+      let reqs ← reqs.mapM fun
+        | .list [.str entry, kind, data] => do
+            let kind ← kind? kind
+            let data ← data? data
+            pure ((entry, kind, data) : Req)
+        | _ => none
+      if !modelled files then pure (.atom "unmodelled") else
+      let m ← match mode with
+        | "inline" => some Mode.inlineU
+        | "inline-marked" => some Mode.inlineM
+        | "runtime" => some Mode.runtime
+        | _ => none
+      pure (.list ((renderSeq m files fuel [] reqs).map resOut))
   | [.atom "kept", files, .str entry, kind] => do
       let files ← files? files
       let kind ← kind? kind
